@@ -27,9 +27,13 @@ Live(i) == obj[i] # None
 Free == { i \in Ids : ~Live(i) }
 Slot == CHOOSE i \in Free : \A k \in Free : i <= k
 
+\* a list of two plain arrays owned by the CALLER (not a library object): constructors may be given it, nothing may
+\* ever change it - no action of this module does, so it is a constant of the model
+Ext == <<4, 5>>
+
 Init ==
   /\ obj = [i \in Ids |-> IF i = 1 THEN <<1, 2>> ELSE IF i = 2 THEN <<3>> ELSE None]
-  /\ nxt = 4
+  /\ nxt = 6
   /\ dep = 0
   /\ hist = <<>>
 
@@ -39,7 +43,7 @@ Do(call, new, fresh) ==
   /\ obj' = new
   /\ nxt' = nxt + fresh
   /\ dep' = dep + 1
-  /\ hist' = Append(hist, [call |-> call, objs |-> new])
+  /\ hist' = Append(hist, [call |-> call, objs |-> new, ext |-> Ext])
 
 Rev(s) == [i \in 1..Len(s) |-> s[Len(s) + 1 - i]]
 
@@ -59,6 +63,13 @@ ListCtor(i, k) == Live(i) /\ Live(k) /\ Len(obj[i]) = 1 /\ Len(obj[k]) = 1 /\ Fr
                  Do([op |-> "ctor-list", src |-> i, src2 |-> k, dst |-> Slot], [obj EXCEPT ![Slot] = obj[i] \o obj[k]], 0)
 IterFirst(i)  == Live(i) /\ Len(obj[i]) >= 1 /\ Free # {} /\
                  Do([op |-> "iter-first", src |-> i, dst |-> Slot], [obj EXCEPT ![Slot] = << obj[i][1] >>], 0)
+
+\* cls(L, check=chk) with L the caller's list of arrays; cls(X.A, check=FALSE) with the array (or list of arrays) that
+\* the accessor A of another object returns
+CtorExt(chk)  == Free # {} /\
+                 Do([op |-> "ctor-ext", check |-> chk, dst |-> Slot], [obj EXCEPT ![Slot] = Ext], 0)
+CtorA(i)      == Live(i) /\ Len(obj[i]) >= 1 /\ Free # {} /\
+                 Do([op |-> "ctor-A", src |-> i, dst |-> Slot], [obj EXCEPT ![Slot] = obj[i]], 0)
 
 \* ---- documented list mutations: ONLY the receiver changes ----------------------------------
 SetFirst(i, k)  == Live(i) /\ Live(k) /\ i # k /\ Len(obj[i]) >= 1 /\ Len(obj[k]) = 1 /\
@@ -85,6 +96,8 @@ Forget(i)       == Live(i) /\ Cardinality({k \in Ids : Live(k)}) >= 2 /\
 Next ==
   \/ \E i \in Ids : GetFirst(i) \/ GetLast(i) \/ SliceAll(i) \/ SliceRev(i) \/ CopyCtor(i) \/ IterFirst(i)
   \/ \E i \in Ids : \E k \in Ids : ListCtor(i, k)
+  \/ \E chk \in BOOLEAN : CtorExt(chk)
+  \/ \E i \in Ids : CtorA(i)
   \/ \E i \in Ids : \E k \in Ids : SetFirst(i, k) \/ SetLast(i, k) \/ AppendO(i, k) \/ InsertO(i, k) \/ ExtendO(i, k)
   \/ \E i \in Ids : SetFresh(i) \/ PopLast(i) \/ ReverseO(i) \/ DelFirst(i) \/ ClearO(i) \/ Forget(i)
 
